@@ -225,6 +225,7 @@ World::World(const Plan& p) : plan(p)
 
 World::~World()
 {
+    foreign_forget();
     tracks.clear();
     crates.clear();
     db.reset();
@@ -363,7 +364,7 @@ void World::end_call(Outcome& o)
     g_disk.fault = SimDisk::Armed{};
     if (g_taps.tick_watchdog_fired)
     {
-        report("C15", "C15|call|" + fam() + "|sql-watchdog",
+        report(safety_owner(), safety_owner() + "|call|" + fam() + "|sql-watchdog",
                "a single API call exceeded the VM tick budget (non-termination)");
         stop = true;
         stop_reason = "sql watchdog fired";
@@ -372,7 +373,7 @@ void World::end_call(Outcome& o)
         report("C05", "C05|" + fam() + "|inflate-no-progress",
                "inflate loop made no progress (non-termination)");
     if (o.non_std)
-        report("C15", "C15|" + fam() + "|non-std-exception", "call threw something not derived from std::exception");
+        report(safety_owner(), safety_owner() + "|" + fam() + "|non-std-exception", "call threw something not derived from std::exception");
 }
 
 void World::open_library()
